@@ -1,4 +1,5 @@
 import MirProofs.Lemmas.IO
+import MirProofs.Lemmas.IOTyped
 /-!
   C20 — annotation files load back to exactly what they encode.
 
@@ -172,6 +173,53 @@ theorem load_events_roundtrip {α : Type} (conv : Conv α) (d : Delim) (c : Opti
   unfold loadEvents
   rw [load_table_roundtrip _ d c _ h]
   simp only [Except.map, numCol_events]
+
+/-- **`load_labeled_events`.** Rows `time label` come back as the times and the labels, in file order. -/
+theorem load_labeled_events_roundtrip {α : Type} (conv : Conv α) (d : Delim) (c : Option (List Char))
+    (rows : List (LabeledEventRow α))
+    (h : ∀ it ∈ rows.map LabeledEventRow.item, it.WF [numConv conv, strConv] d c) :
+    loadLabeledEvents conv d c (renderFile (rows.map LabeledEventRow.item)) =
+      .ok (rows.map (fun r => r.time.val), rows.map (fun r => r.label)) := by
+  unfold loadLabeledEvents
+  rw [load_table_roundtrip _ d c _ h, dataRows_labeledEvents]
+  simp only [Except.map, numCol_labeledEvents, strCol_labeledEvents]
+
+/-- **`load_intervals`.** Rows `start stop` come back as the `(start, stop)` pairs in file order. -/
+theorem load_intervals_roundtrip {α : Type} (conv : Conv α) (d : Delim) (c : Option (List Char))
+    (rows : List (PairRow α)) (h : ∀ it ∈ rows.map PairRow.item, it.WF [numConv conv, numConv conv] d c) :
+    loadIntervals conv d c (renderFile (rows.map PairRow.item)) =
+      .ok (rows.map fun r => (r.fst.val, r.snd.val)) := by
+  unfold loadIntervals
+  rw [load_table_roundtrip _ d c _ h, dataRows_pairs]
+  simp only [Except.map, pairCol_pairs]
+
+/-- **`load_time_series`.** Rows `time value` come back as the two columns, each in file order. -/
+theorem load_time_series_roundtrip {α : Type} (conv : Conv α) (d : Delim) (c : Option (List Char))
+    (rows : List (PairRow α)) (h : ∀ it ∈ rows.map PairRow.item, it.WF [numConv conv, numConv conv] d c) :
+    loadTimeSeries conv d c (renderFile (rows.map PairRow.item)) =
+      .ok (rows.map (fun r => r.fst.val), rows.map (fun r => r.snd.val)) := by
+  unfold loadTimeSeries
+  rw [load_table_roundtrip _ d c _ h, dataRows_pairs]
+  simp only [Except.map, numCol_pairs_fst, numCol_pairs_snd]
+
+/-- **`load_valued_intervals`.** Rows `start stop value` come back as the `(start, stop)` pairs and the values. -/
+theorem load_valued_intervals_roundtrip {α : Type} (conv : Conv α) (d : Delim) (c : Option (List Char))
+    (rows : List (ValuedIntervalRow α))
+    (h : ∀ it ∈ rows.map ValuedIntervalRow.item, it.WF [numConv conv, numConv conv, numConv conv] d c) :
+    loadValuedIntervals conv d c (renderFile (rows.map ValuedIntervalRow.item)) =
+      .ok (rows.map (fun r => (r.start.val, r.stop.val)), rows.map (fun r => r.value.val)) := by
+  unfold loadValuedIntervals
+  rw [load_table_roundtrip _ d c _ h, dataRows_valuedIntervals]
+  simp only [Except.map, pairCol_valuedIntervals, numCol_valuedIntervals]
+
+example : loadLabeledEvents floatConv .ws (some ['#']) "0.5 kick\n1.0\tsnare drum \n".toList
+    = .ok (["0.5".toList, "1.0".toList], ["kick".toList, "snare drum".toList]) := by decide
+example : loadIntervals floatConv .ws (some ['#']) "0.0 1.5\n1.5\t3e0\n".toList
+    = .ok [("0.0".toList, "1.5".toList), ("1.5".toList, "3e0".toList)] := by decide
+example : loadTimeSeries floatConv .ws (some ['#']) "0.0 440\n0.01 0\n".toList
+    = .ok (["0.0".toList, "0.01".toList], ["440".toList, "0".toList]) := by decide
+example : loadValuedIntervals floatConv .ws (some ['#']) "0.0 1.5 60\n1.5 3 62.5\n".toList
+    = .ok ([("0.0".toList, "1.5".toList), ("1.5".toList, "3".toList)], ["60".toList, "62.5".toList]) := by decide
 
 example : loadLabeledIntervals floatConv .ws (some ['#']) "0.0 1.5 N\n1.5\t3e0  C:maj(9) / 3 \n".toList
     = .ok ([("0.0".toList, "1.5".toList), ("1.5".toList, "3e0".toList)], ["N".toList, "C:maj(9) / 3".toList]) := by
